@@ -199,10 +199,11 @@ func c19Scenario(name string, depth int, howAxis bool) *explore.Scenario {
 					scfg.CurvePreferences = []tls.CurveID{tls.CurveID(grp)}
 				}
 				prep := p.client.prepare()
+				renamedTo := ""
 				if howAxis && k == depth-1 {
 					// how the caller reaches the handshake of the last connection: the documented
 					// inspect / edit / connect orders must offer the cached session in a valid form too
-					how := x.Choose("how", 6)
+					how := x.Choose("how", 7)
 					if how != 0 {
 						inner := prep
 						prep = func(u *tls.UConn) error {
@@ -228,10 +229,16 @@ func c19Scenario(name string, depth int, howAxis bool) *explore.Scenario {
 								return u.SetClientRandom(rep(0x5c, 32))
 							case 3:
 								return u.BuildHandshakeState()
+							case 6:
+								// the caller redirects the built hello to the other server name
+								u.SetSNI(names[1-st.name])
 							}
 							return nil
 						}
-						hist[len(hist)-1] += []string{"", "[prebuilt]", "[prebuilt+SetClientRandom]", "[built twice]", "[built without session, then Handshake]", "[built without session, then BuildHandshakeState]"}[how]
+						if how == 6 {
+							renamedTo = names[1-st.name]
+						}
+						hist[len(hist)-1] += []string{"", "[prebuilt]", "[prebuilt+SetClientRandom]", "[built twice]", "[built without session, then Handshake]", "[built without session, then BuildHandshakeState]", "[prebuilt, then SetSNI(the other name)]"}[how]
 					}
 				}
 				var unhook func()
@@ -268,6 +275,9 @@ func c19Scenario(name string, depth int, howAxis bool) *explore.Scenario {
 						}
 					}
 				}
+				if renamedTo != "" {
+					name = renamedTo // the name this hello goes out under
+				}
 				// never offer a ticket that was issued for another server name
 				for _, off := range [][]byte{offeredTicket, offeredPSK} {
 					if off == nil {
@@ -290,8 +300,19 @@ func c19Scenario(name string, depth int, howAxis bool) *explore.Scenario {
 					}
 					cache.mu.Unlock()
 					if !okName && other != "" {
-						r.Violate("C19|ticket-for-other-name", "history %s: the connection to %s offers a session issued for %s", what, name, other)
+						sig := "C19|ticket-for-other-name"
+						if renamedTo != "" {
+							sig += "|after-SetSNI-on-a-built-hello"
+						}
+						r.Violate(sig, "history %s: the connection to %s offers a session issued for %s", what, name, other)
 					}
+				}
+				if renamedTo != "" {
+					// only the cross-name clause is judged for a hello renamed after it was built
+					r.Nontrivial = true
+					r.Class = what
+					r.Obs = "renamed-after-build"
+					return
 				}
 				offered := offeredTicket != nil || offeredPSK != nil
 				// a session whose resumption attempt failed is thrown away (RFC 5077 3.2, and the only
@@ -478,7 +499,7 @@ func c19Scenarios(thorough bool) []*explore.Scenario {
 func init() {
 	register(&Prop{ID: "C19", Level: "model_checking", Variant: "A", Scenarios: c19Scenarios,
 		Run: func(c *explore.Check, thorough bool) {
-			c.Rule = "histories of 3 (4) connections sharing one ClientSessionCache and one server ticket key: the first two steps range over the full product of 7 clients (Chrome_100, Chrome_100_PSK, Chrome_112_PSK_Shuf, Firefox_120, Golang, custom TLS 1.2 with and without extended_master_secret) x server {TLS 1.2, TLS 1.3, TLS 1.3 answering with an HRR} x server name {a, b} x clock {+1 min, +8 days}; later steps repeat the previous step with <=2 deviations; every step handshakes, echoes (absorbing NewSessionTicket) and closes; plus all 2-connection histories (servers additionally: TLS 1.3 forced to TLS_CHACHA20_POLY1305_SHA256) with the second connection reached by {Handshake, BuildHandshakeState+Handshake, BuildHandshakeState+SetClientRandom+Handshake, BuildHandshakeState twice+Handshake, BuildHandshakeStateWithoutSession+Handshake, BuildHandshakeStateWithoutSession+BuildHandshakeState+Handshake}. Oracle per step against a reference cache: must resume iff an unexpired session of the same parrot/name/version exists and the spec carries the needed extension (also through an HRR); DidResume agrees on both ends; pre_shared_key last and well-formed; no handshake failure at all; no ticket issued for one name offered to another; after a failed resumption attempt the history goes on and the session that failed is never offered again; 7 clients x {1.2, 1.3} x 6 verification knobs (InsecureServerNameToVerify * / * with a ServerName no certificate covers / the name / the name with another ServerName, InsecureSkipTimeVerify, InsecureSkipVerify): the second of two identical connections resumes whenever it does in the plain configuration. distinct = history"
+			c.Rule = "histories of 3 (4) connections sharing one ClientSessionCache and one server ticket key: the first two steps range over the full product of 7 clients (Chrome_100, Chrome_100_PSK, Chrome_112_PSK_Shuf, Firefox_120, Golang, custom TLS 1.2 with and without extended_master_secret) x server {TLS 1.2, TLS 1.3, TLS 1.3 answering with an HRR} x server name {a, b} x clock {+1 min, +8 days}; later steps repeat the previous step with <=2 deviations; every step handshakes, echoes (absorbing NewSessionTicket) and closes; plus all 2-connection histories (servers additionally: TLS 1.3 forced to TLS_CHACHA20_POLY1305_SHA256) with the second connection reached by {Handshake, BuildHandshakeState+Handshake, BuildHandshakeState+SetClientRandom+Handshake, BuildHandshakeState twice+Handshake, BuildHandshakeStateWithoutSession+Handshake, BuildHandshakeStateWithoutSession+BuildHandshakeState+Handshake, BuildHandshakeState+SetSNI(the other name)+Handshake (cross-name clause only)}. Oracle per step against a reference cache: must resume iff an unexpired session of the same parrot/name/version exists and the spec carries the needed extension (also through an HRR); DidResume agrees on both ends; pre_shared_key last and well-formed; no handshake failure at all; no ticket issued for one name offered to another; after a failed resumption attempt the history goes on and the session that failed is never offered again; 7 clients x {1.2, 1.3} x 6 verification knobs (InsecureServerNameToVerify * / * with a ServerName no certificate covers / the name / the name with another ServerName, InsecureSkipTimeVerify, InsecureSkipVerify): the second of two identical connections resumes whenever it does in the plain configuration. distinct = history"
 			c.Assumptions = []string{"reference resumption table (mc/props/c19.go) written from the property statement; ticket lifetime 7 days", "OmitEmptyPsk is on for every client"}
 			runAll(c, c19Scenarios(thorough), 0)
 			c.Gate(c.Total.Counters["resumed"] > 500, "non-vacuity: %d resumed connections", c.Total.Counters["resumed"])
